@@ -31,7 +31,7 @@ pub struct Choice {
 
 pub fn strategy(perms: usize) -> BoxedStrategy<Choice> {
   (
-    prop::collection::vec(0u8..6, 2..=5),
+    prop::collection::vec(0u8..8, 2..=5),
     prop::collection::vec((0u8..8, 0u8..7, 0u8..7), 2..8),
     prop::collection::vec(any::<u64>(), perms..=perms),
     prop::collection::vec(any::<u8>(), 24..=24),
@@ -152,6 +152,34 @@ constraints:
   Z: {any: [{pattern: $W}, {kind: number}]}
   F: {regex: "^(foo|qux)$"}
 fix: "$F($Z, $Y, $W)"
+"#,
+    ),
+    (
+      // several secondary labels per match (inside + has + a second has): their order in the
+      // test snapshot must not depend on the process
+      "labels",
+      r#"
+id: labels
+language: JavaScript
+message: "labelled call"
+rule:
+  pattern: foo($$$ARGS)
+  inside: {kind: expression_statement, stopBy: end}
+  has: {kind: arguments, has: {kind: number}}
+"#,
+    ),
+    (
+      "labels-all",
+      r#"
+id: labels-all
+language: JavaScript
+message: "labelled args"
+rule:
+  all:
+  - kind: arguments
+  - has: {kind: identifier}
+  - has: {kind: number}
+  - inside: {kind: call_expression}
 "#,
     ),
   ]
